@@ -155,3 +155,30 @@ Qed.
 (* row counts: one row per trip, one per stop time, in journal order (immediate from the tables) *)
 Lemma trips_table_length j : List.length (trips_table j) = S (List.length j).
 Proof. unfold trips_table. cbn. now rewrite map_length. Qed.
+Lemma stops_table_length j : List.length (stops_table j) = S (list_sum (map (fun t => List.length (jt_stops t)) j)).
+Proof. unfold stops_table. cbn [List.length]. f_equal. induction j as [|t j IH]; [reflexivity|].
+  cbn [flat_map map list_sum]. now rewrite app_length, map_length, IH. Qed.
+
+(* the key: the stop-time rows can be JOINED back to their trips - selecting the rows whose first cell is a trip's UID gives
+   exactly that trip's stop times, in order, whenever the journal's UIDs are pairwise distinct (C15: they are) *)
+Definition key_is (u : string) (r : list string) : bool := String.eqb (hd EmptyString r) u.
+Definition stop_rows (j : list j_trip) : list (list string) := flat_map (fun t => map (stop_cells (jt_uid t)) (jt_stops t)) j.
+Lemma filter_key_map u u' ss : filter (key_is u) (map (stop_cells u') ss) = if String.eqb u' u then map (stop_cells u') ss else [].
+Proof. induction ss as [|s ss IH]; cbn [map filter]; [now destruct (String.eqb u' u)|].
+  unfold key_is at 1. change (hd EmptyString (stop_cells u' s)) with u'. rewrite IH. now destruct (String.eqb u' u). Qed.
+Lemma filter_key_none u j : ~ In u (map jt_uid j) -> filter (key_is u) (stop_rows j) = [].
+Proof. unfold stop_rows. induction j as [|x j IH]; intros H; [reflexivity|]. cbn [flat_map]. rewrite filter_app, filter_key_map.
+  destruct (String.eqb_spec (jt_uid x) u) as [e|ne]; [exfalso; apply H; left; exact e|].
+  rewrite IH; [reflexivity|]. intros Hin; apply H; right; exact Hin. Qed.
+Theorem stop_rows_join j : NoDup (map jt_uid j) -> forall t, In t j ->
+  filter (key_is (jt_uid t)) (stop_rows j) = map (stop_cells (jt_uid t)) (jt_stops t).
+Proof.
+  induction j as [|x j IH]; intros ND t Hin; [destruct Hin|]. cbn [map] in ND. inversion ND as [|? ? Hnot ND']; subst.
+  unfold stop_rows. cbn [flat_map]. rewrite filter_app, filter_key_map. destruct Hin as [->|Hin].
+  - rewrite String.eqb_refl. fold (stop_rows j). rewrite (filter_key_none _ _ Hnot). apply app_nil_r.
+  - destruct (String.eqb_spec (jt_uid x) (jt_uid t)) as [e|ne].
+    + exfalso. apply Hnot. rewrite e. apply in_map. exact Hin.
+    + cbn [app]. apply IH; assumption.
+Qed.
+Theorem stops_table_is j : stops_table j = header_stops :: stop_rows j.
+Proof. reflexivity. Qed.
